@@ -79,6 +79,7 @@ fn lossy_action() -> impl Strategy<Value = Action> {
     prop_oneof![
         4 => Just(Action::Drop),
         2 => (any::<u16>(), 0u8..8).prop_map(|(pos, bit)| Action::Flip { pos, bit }),
+        3 => (0u8..32, 0u8..8).prop_map(|(off, bit)| Action::FlipHead { off, bit }),
         1 => (0u16..1000).prop_map(|keep| Action::Truncate { keep }),
         1 => (any::<u32>(), any::<bool>()).prop_map(|(seed, keep_first)| Action::Garbage { seed, keep_first }),
         1 => (50_000u32..3_000_000).prop_map(|us| Action::Delay { us }),
@@ -99,7 +100,7 @@ fn dir() -> impl Strategy<Value = Dir> {
 }
 
 fn pos() -> impl Strategy<Value = u32> {
-    prop_oneof![4 => 0u32..8, 3 => 0u32..40, 1 => 0u32..400]
+    prop_oneof![3 => 0u32..2, 4 => 0u32..8, 3 => 0u32..40, 1 => 0u32..400]
 }
 
 fn net_cfg(profile: Profile) -> BoxedStrategy<NetCfg> {
